@@ -384,6 +384,24 @@ var mutators = []mutator{
 		t.add(f)
 		t.notes = append(t.notes, "forged leaf under a look-alike CA")
 	}},
+	{"target-named-like-anchor", func(t *topo, r *mon.Rand) {
+		// a certificate that only shares the subject name (or name and key) of a trust anchor
+		root := t.root()
+		k := t.newKey()
+		if r.Intn(4) == 0 {
+			k = root.key // re-issued anchor that is not in the pool itself
+		}
+		s := caSpec(r, root.name, k, -1)
+		s.target = true
+		t.add(s)
+		if len(t.chain) > 2 && r.Bool() {
+			x := t.certs[t.chain[1]]
+			x.roots = true // also an intermediate anchor with a look-alike target
+			y := caSpec(r, x.name, t.newKey(), x.issuer)
+			y.target = true
+			t.add(y)
+		}
+	}},
 	{"ca-as-target", func(t *topo, r *mon.Rand) {
 		t.certs[t.chain[t.pickCA(r)]].target = true
 	}},
